@@ -295,9 +295,72 @@ fn c25_main(args: &Args) -> i32 {
         handles.into_iter().map(|h| h.join().expect("worker")).collect()
     });
     for r in reports { rep.absorb(r); }
+    // a server that rewrites its history: the same session and serials, other content (the listed delta hashes change)
+    for retain_first in [1usize, 2, 100] {
+        for fork_at in [1usize, 2] {
+            match catch(std::panic::AssertUnwindSafe(|| c25_rewrite(&factory, retain_first, fork_at))) {
+                Ok(r) => rep.absorb(r),
+                Err(msg) => rep.violation(C25, "rrdp/history-rewritten/panic", format!("panic: {msg}"), json!({"retain_first": retain_first, "fork_at": fork_at}), json!({"panic": msg})),
+            }
+        }
+    }
     let stray = dbl::stray_requests();
     if !stray.is_empty() { rep.note(C25, "stray_requests", json!(stray.len())); }
     rep.write(args)
+}
+
+/// Versions 1..3 of a session; the client copies version 3 while the server lists only the newest `retain_first`
+/// deltas (so the client remembers the hashes of those only).  Then the server goes back to version `fork_at` and
+/// publishes other versions `fork_at`+1 .. 4 under the same session and serials (every delta behind the fork has another
+/// hash) and lists them all; the last one touches an object the old history never had, so it applies to the old
+/// copy without conflict.  A successful update must leave the server's version 4.
+fn c25_rewrite(factory: &Factory, retain_first: usize, fork_at: usize) -> Report {
+    let mut rep = Report::new("rrdp");
+    let rig = Rig::new(factory);
+    let base = rig.srv.rsync_base();
+    rig.srv.set_validators(false, false);
+    let objs = |tag: &str, extra: bool| -> Objects {
+        let mut o: Objects = [(format!("{base}o1.roa"), Bytes::from(format!("object one, {tag}")))].into_iter().collect();
+        if extra { o.insert(format!("{base}o2.roa"), Bytes::from(format!("object two, {tag}"))); }
+        o
+    };
+    let mut idx = Vec::new();
+    for s in 1..=3 { idx.push(rig.srv.publish(objs(&format!("first history, version {s}"), false))); }
+    rig.srv.with(|s| s.retain = retain_first);
+    let collector = rig.collector(&rig.config());
+    let ctx = json!({"history": "versions 1-3, client copies 3; the server rewrites its history behind the fork and goes on to serial 4",
+                     "deltas_listed_at_first": retain_first, "fork_after_version": fork_at});
+    match client_run(&collector, &rig.ca, &rig.srv, &[]) {
+        Ok(o) if o.updated => {}
+        _ => { rep.divergence(C25, format!("history rewrite {ctx}: the first update failed")); return rep }
+    }
+    rig.srv.announce(idx[fork_at - 1]);
+    rig.srv.with(|s| s.retain = 100);
+    let mut last = objs("nothing", false);
+    for s in (fork_at + 1)..=4 {
+        last = objs(&format!("second history, version {s}"), s == 4);
+        if s == 4 { last.insert(format!("{base}o1.roa"), Bytes::from("object one, second history, version 3".to_string())); }
+        rig.srv.publish(last.clone());
+    }
+    let obs = match client_run(&collector, &rig.ca, &rig.srv, &[]) {
+        Ok(o) => o,
+        Err(e) => { rep.divergence(C25, format!("history rewrite {ctx}: {e}")); return rep }
+    };
+    let after = rig.read_archive();
+    rep.eval(C25);
+    rep.trace(C25);
+    rep.nontrivial(C25, format!("history-rewritten/{retain_first}/{fork_at}"));
+    let made: Vec<String> = obs.requests.iter().filter(|q| !matches!(q.kind, ReqKind::Notify)).map(|q| format!("{:?}", q.kind)).collect();
+    if obs.updated {
+        let ok = after.as_ref().map(|l| l.serial == 4 && l.objects == last).unwrap_or(false);
+        if !ok {
+            rep.violation(C25, "rrdp/history-rewritten/copy-differs",
+                "the update is reported successful; the local copy is not the server's state at the notified serial (deltas of the rewritten history were applied to a copy of the old one)".to_string(),
+                ctx, json!({"requests": made, "snapshot_reason": obs.snapshot_reason,
+                            "copy": after.as_ref().map(|l| l.objects.iter().map(|(u, b)| (u.clone(), String::from_utf8_lossy(b).into_owned())).collect::<BTreeMap<_, _>>())}));
+        }
+    }
+    rep
 }
 
 fn local_json(l: &Option<LocalCopy>, base: &str) -> Value {
